@@ -484,6 +484,7 @@ func streamOps(o *Out, r *rand.Rand, n int, thorough bool) {
 		{"n = 0\nfor i = 0; i < 3; i++ {\nn++\n}\nn", 3}, {"-(-1)", 1}, {"10 % 7", 3}, {"16 >> 2", 4},
 		{"2040 + 8", 2048}, {"len(\"abcd\")", 4}, {"-(-2)", 2}, {"3 * 3", 9}, {"6 % 4", 2}, {"5 + 5", 10}, {"20 + 1", 21}, {"10 + 1", 11}, {"11 + 1", 12}, {"40 + 1", 41}}
 	hostPoison := "[host] vm.Execute(e, \"i = 40; i++\"); p, _ := e.Addr(\"i\"); if p can be set: *p = 81"
+poisonLoop:
 	for _, ps := range append([]string{hostPoison}, poisons...) {
 		if ps == hostPoison {
 			// the host side of the same history: the address the Env hands out for a variable bound to a small result
@@ -505,7 +506,8 @@ func streamOps(o *Out, r *rand.Rand, n int, thorough bool) {
 			if out.panicked || out.err != nil || !sameValue(c.want, out.val) {
 				o.Fail(Failure{Oracle: "go-arithmetic", Key: "small-int-shared-cell", Input: ps + "\n--- then, in a fresh environment ---\n" + c.src,
 					Detail: fmt.Sprintf("Go computes %d; after the first script the interpreter gives %v (err %v)", c.want, out.val, out.err)})
-				break
+				// the table is shared by the whole process: histories after this one would be blamed for the same write
+				break poisonLoop
 			}
 		}
 	}
